@@ -422,7 +422,18 @@ def select_instances(prop, tier, seed, only):
         tiers = inst.get("tiers", ("quick", "thorough"))
         if tier in tiers or only:
             insts.append(dict(inst))
-    # VERIF_SEED: quick tier may carry alternatives ("alt" groups): pick one member per group by seed
+    # VERIF_SEED: in the quick tier, `seed_extra` draws a few additional shape instances from the thorough-only pool, so that
+    # repeated quick runs with different seeds sweep the enumerated shape space
+    if tier == "quick" and not only:
+        import random as _r
+        for prefix, count, maxcost in prop.get("seed_extra", []):
+            pool = [dict(i) for i in prop["instances"] if i["name"].startswith(prefix) and "quick" not in i.get("tiers", ())
+                    and i.get("cost", 0) <= maxcost]
+            pool.sort(key=lambda i: i["name"])
+            for extra in _r.Random(seed * 7919 + len(prefix)).sample(pool, min(count, len(pool))):
+                extra["seed_drawn"] = True
+                insts.append(extra)
+    # "alt" groups: pick one member per group by seed
     groups = {}
     out = []
     for inst in insts:
@@ -614,6 +625,7 @@ def write_evidence(prop_id, prop, tier, seed, status, cuts, wall):
         samples.append({"instance": r["name"], "harness": r["harness"], "lemma": r["lemma"], "bounds": r["bounds"],
                         "verdict": r["verdict"], "cbmc_checks": r["checks"], "cover_witnesses": r["cover"],
                         "solver_s": r["solver_s"], "wall_s": r["wall_s"], "peak_rss_kb": r["peak_rss_kb"],
+                        **({"drawn_by_seed": True} if r["inst"].get("seed_drawn") else {}),
                         **({"reason": r["reason"]} if r["verdict"] != "PASS" else {})})
     nontrivial = sum(1 for r in results if r["verdict"] == "PASS" and r["checks"] > 0
                      and (r["inst"].get("covers", 0) == 0 or r["cover"].split("/")[0] == r["cover"].split("/")[1]))
